@@ -2,7 +2,7 @@
    Restates Proofs/DriverWf.wf_run on the driver model, for every user, every kernel behaviour,
    every configuration (checkpoint, scaler, update function, callable tolerances included). *)
 From Coq Require Import List ZArith Bool String Floats.PrimFloat.
-From LBFGSB Require Import Base.Res Model.SF Model.FloatVec Model.Driver Proofs.DriverWf.
+From LBFGSB Require Import Base.Res Model.SF Model.FloatVec Model.Driver Proofs.DriverWf Generated.Handlers.
 Import ListNotations.
 Open Scope Z_scope.
 
@@ -52,6 +52,14 @@ Section C20.
     rewrite H in W. exact W.
   Qed.
 End C20.
+
+(* Code side of the same statement, re-derived from the source on every run (Generated/Handlers.v is rewritten by the
+   translator's scan of every try/except, `with` and call site of the package): no exception handler guards a block that can
+   reach a user callable, no exception-suppressing context manager is used, and nothing changes process-wide state
+   (numpy error state, warning filters, logging configuration, PRNG seeds): "leaves nothing behind". *)
+Theorem C20_no_handler_around_user_code :
+  except_sites_reaching_user_code = [] /\ suppressing_with_sites = [] /\ global_state_mutator_calls = [] /\ shared_write_sites = [].
+Proof. repeat split; reflexivity. Qed.
 
 Print Assumptions C20_propagation.
 Print Assumptions C20_only_user_exceptions.
